@@ -50,7 +50,7 @@ SPEC = {
             "cbuffer of the same scope (accepted since fix 31dddea) x 4 targets, buffer addresses in 2-4 bind groups with tied inline "
             "descriptor slots x {vk, vkba}, plus the repository's own inputs under tests/ x {dx, msl}, each "
             "compiled 5 times in one process and once in each of 3 fresh processes; rejected programs: 113 generated families "
-            "with >= 3 interchangeable offenders each (lexer, preprocessor, parser, 98 of 109 TyperError variants incl. enum "
+            "with >= 3 interchangeable offenders each (lexer, preprocessor, parser, 99 of 109 TyperError variants incl. enum "
             "range / conflicts, overload ambiguity with candidate lists, redefinitions, and every rejection introduced by fix batch 2; "
             "layout check; pipeline errors; exporter "
             "errors on every target) and the 504 rejected inputs of the repository's typer tests, each compiled 8 times in one "
